@@ -19,9 +19,9 @@ func init() {
 	register(&Rule{ID: "C01.a", Doc: "every statement type the parser can put into a block is dispatched by the emitter work list", Floor: 8, Run: c01a})
 	register(&Rule{ID: "C01.b", Doc: "every finalised chunk accounts for all statements of the chunk it was cut from", Floor: 9, Run: c01b})
 	register(&Rule{ID: "C01.c", Doc: "every chunk gets a fresh id from its own counter increment (or copies the id of the chunk it finalises)", Floor: 20, Run: c01c})
-	register(&Rule{ID: "C01.d", Doc: "every newly created chunk is enqueued exactly once on every non-error path; every dequeued chunk is finalised", Floor: 14, Run: c01d})
-	register(&Rule{ID: "C01.e", Doc: "return-point threading of if / while / do-while / break / continue / split (value-origin templates)", Floor: 30, Run: c01e})
-	register(&Rule{ID: "C01.f", Doc: "branch protocol: goto iff dest is neither next nor 'leave', terminator iff 'leave', fall through iff dest is next", Floor: 14, Run: c01f})
+	register(&Rule{ID: "C01.d", Doc: "every newly created chunk is enqueued exactly once on every non-error path; every dequeued chunk is finalised", Floor: 26, Run: c01d})
+	register(&Rule{ID: "C01.e", Doc: "return-point threading of if / while / do-while / break / continue / split (value-origin templates)", Floor: 42, Run: c01e})
+	register(&Rule{ID: "C01.f", Doc: "branch protocol: goto iff dest is neither next nor 'leave', terminator iff 'leave', fall through iff dest is next", Floor: 18, Run: c01f})
 	register(&Rule{ID: "C01.h", Doc: "parsers keep what they parse: every AST piece returned by a parse call is stored, appended, handed on or returned on every successful path", Floor: 30, Run: c01h})
 	register(&Rule{ID: "C01.g", Doc: "end/return early exit only as last statement; terminator kind follows the command name", Floor: 3, Run: c01g})
 }
